@@ -33,7 +33,7 @@ ASSUMPTIONS = [
     "content of an operation = machines, duration, job id, position, operation id; "
     "two machine lists with the same members in a different order are not compared",
 ]
-REQUIRED_COUNTERS = {"same_id_other_structure_pairs": 30, "equal_pairs": 200, "different_pairs": 500, "transitivity_triples": 100,
+REQUIRED_COUNTERS = {"in_place_mutation_checks": 100, "same_id_other_structure_pairs": 30, "equal_pairs": 200, "different_pairs": 500, "transitivity_triples": 100,
                      "kind_operation": 100, "kind_scheduled_operation": 100,
                      "kind_schedule": 100, "kind_instance": 100}
 WORKERS = {"quick": 1, "thorough": 8}
@@ -240,6 +240,36 @@ def run_case(ctx, case):
         if so.machine_id in opsB[k2].machines:
             L.expect(so, ScheduledOperation(opsB[k2], so.start_time, so.machine_id), False,
                      "other operation, same start and machine", [oid, k2])
+    # ---- objects are mutable through public attributes: equality must follow the CURRENT
+    # content also after the object has been compared / hashed before (no stale memo)
+    L = Laws(ctx, "scheduled_operation")
+    base = rng.choice([x for lst in SA.schedule for x in lst])
+    oid2 = base.operation.operation_id
+    mut_so = ScheduledOperation(opsC[oid2], base.start_time, base.machine_id)
+    twin_so = ScheduledOperation(opsB[oid2], base.start_time, base.machine_id)
+    L.expect(mut_so, twin_so, True, "before in-place mutation", [oid2]); hash(mut_so.operation)
+    try:
+        hash(mut_so)
+    except TypeError:
+        pass
+    mut_so.start_time = base.start_time + 2
+    L.expect(mut_so, twin_so, False, "after start_time changed in place", [oid2])
+    L.expect(mut_so, ScheduledOperation(opsB[oid2], base.start_time + 2, base.machine_id), True,
+             "equal to a fresh object with the new start time", [oid2])
+    if len(base.operation.machines) > 1:
+        other = [m for m in base.operation.machines if m != base.machine_id][0]
+        mut_so.machine_id = other
+        L.expect(mut_so, ScheduledOperation(opsB[oid2], base.start_time + 2, other), True,
+                 "equal to a fresh object after machine re-assignment", [oid2])
+        L.expect(mut_so, ScheduledOperation(opsB[oid2], base.start_time + 2, base.machine_id), False,
+                 "after machine re-assignment in place", [oid2])
+    ctx.count("in_place_mutation_checks")
+    L = Laws(ctx, "operation")
+    mo, to = Operation(list(u1.machines), u1.duration), Operation(list(u1.machines), u1.duration)
+    L.expect(mo, to, True, "before in-place mutation", None); hash(mo)
+    mo.duration = u1.duration + 4
+    L.expect(mo, to, False, "after duration changed in place", None)
+    L.expect(mo, Operation(list(u1.machines), u1.duration + 4), True, "fresh object with new duration", None)
     ctx.evaluations += 1
     if len(ctx.samples) < 3:
         ctx.samples.append({"instance": inst, "mutation": what, "history": hist})
